@@ -47,6 +47,8 @@ impl<E: Elem> World<E> {
             OpKind::ItLast => self.op_it_last(cx, a),
             OpKind::ItDebug => self.op_it_debug(cx, a),
             OpKind::ItCollect => self.op_it_collect(cx, a),
+            OpKind::ItCloneFrom => self.op_it_clone_from(cx, a),
+            OpKind::CloneFromArr => self.op_clone_from(cx, a),
             OpKind::Map => self.op_map(cx, a),
             OpKind::Zip => self.op_zip(cx, a),
             OpKind::Fold => self.op_fold(cx, a),
@@ -542,19 +544,34 @@ impl<E: Elem> World<E> {
         };
         let target = LENS[li];
         let want: Vec<u32> = infra(|| io.model.iter().copied().collect());
-        let r = with_it!(io.it; it, N => { let _ = N::USIZE; with_len!(li; R => lib(move || GenericArray::<E, R>::try_from_iter(it).map(Arr::from))) });
+        let boxed = a[1] % 4 == 2;
+        enum Out<E> {
+            A(Arr<E>),
+            B(Bx<E>),
+        }
+        let r = with_it!(io.it; it, N => { let _ = N::USIZE; with_len!(li; R => lib(move || {
+            if boxed {
+                GenericArray::<E, R>::try_boxed_from_iter(it).map(|b| Out::B(Bx::from(b)))
+            } else {
+                GenericArray::<E, R>::try_from_iter(it).map(|a| Out::A(Arr::from(a)))
+            }
+        })) });
         match r {
-            Ok(Ok(arr)) => {
+            Ok(Ok(out)) => {
                 if target != rem {
                     fail("C07-wrong-length-accepted", format!("collecting {rem} remaining elements into length {target} returned Ok"));
                 }
-                if cx.checks.c06 && E::HAS_ID {
-                    let got = with_arr!(&arr; x, N => { let _ = N::USIZE; ids_of(x.as_slice(), 940) });
-                    if got != want {
-                        fail("C06-collect-order", format!("collecting the iterator gave {got:?}, a queue yields {want:?}"));
-                    }
+                let got = match &out {
+                    Out::A(arr) => with_arr!(arr; x, N => { let _ = N::USIZE; ids_of(x.as_slice(), 940) }),
+                    Out::B(bx) => with_bx!(bx; x, N => { let _ = N::USIZE; ids_of(x.as_slice(), 940) }),
+                };
+                if cx.checks.c06 && E::HAS_ID && got != want {
+                    fail("C06-collect-order", format!("collecting the iterator gave {got:?}, a queue yields {want:?}"));
                 }
-                self.put_arr(cx, arr);
+                match out {
+                    Out::A(arr) => self.put_arr(cx, arr),
+                    Out::B(bx) => self.put_bx(cx, bx),
+                }
             }
             Ok(Err(_)) => {
                 if target == rem && (cx.checks.c06 || cx.checks.c07) {
@@ -564,6 +581,88 @@ impl<E: Elem> World<E> {
             }
             Err(p) => on_panic(cx, "collect from iterator", p),
         }
+    }
+
+    /// `dst.clone_from(&src)` on two by-value iterators of the same array type
+    fn op_it_clone_from(&mut self, cx: &mut Cx, a: [u32; N_ARGS]) {
+        let Some(i) = pick_len(self.its.len(), a[0]) else { return self.noop(cx) };
+        let n = self.its[i].it.len();
+        let partners: Vec<usize> = infra(|| (0..self.its.len()).filter(|&j| j != i && self.its[j].it.len() == n).collect());
+        let Some(pj) = pick_len(partners.len(), a[1]) else { return self.noop(cx) };
+        let j = partners[pj];
+        self.it_cov(cx, OpKind::ItCloneFrom, i, self.its[j].model.len() as u64);
+        // take the destination out so that both can be borrowed
+        let mut dst = self.its.remove(i);
+        let j = if j > i { j - 1 } else { j };
+        let src = &self.its[j];
+        ledger::with(|s| s.clones.clear());
+        let r = match (&mut dst.it, &src.it) {
+            (d, s0) => {
+                macro_rules! arms {
+                    ($($v:ident),*) => {
+                        match (d, s0) {
+                            $((It::$v(d), It::$v(s0)) => lib(|| d.clone_from(s0)),)*
+                            _ => unreachable!(),
+                        }
+                    };
+                }
+                arms!(L0, L1, L2, L3, L4, L5, L6, L7, L8, L9, L10, L11, L12, L15, L16, L17, L31, L32, L33, L64, L100, L1024)
+            }
+        };
+        let clones = ledger::with(|s| s.clones.clone());
+        let news: Vec<u32> = infra(|| clones.iter().map(|c| c.1).collect());
+        let want: Vec<u32> = infra(|| src.model.iter().copied().collect());
+        match r {
+            Ok(()) => {
+                // the destination now yields clones of the source's remaining elements
+                infra(|| {
+                    dst.model = if E::HAS_ID { news.iter().copied().collect() } else { want.iter().map(|_| 0).collect() };
+                    dst.front = 0;
+                });
+                if cx.checks.c06 && E::HAS_ID && news.len() != want.len() {
+                    fail("C06-clone", format!("clone_from a source with remaining {want:?} made {} clones", news.len()));
+                }
+                self.put_it(cx, dst);
+            }
+            Err(p) => {
+                on_panic(cx, "iterator clone_from", p);
+                // whatever the destination holds now is re-read through as_slice
+                infra(|| self.its.push(dst));
+                let k = self.its.len() - 1;
+                self.resync_it(k);
+            }
+        }
+    }
+
+    /// `dst.clone_from(&src)` on two arrays of the same length
+    fn op_clone_from(&mut self, cx: &mut Cx, a: [u32; N_ARGS]) {
+        let Some(i) = pick_len(self.arrs.len(), a[0]) else { return self.noop(cx) };
+        let n = self.arrs[i].len();
+        let partners: Vec<usize> = infra(|| (0..self.arrs.len()).filter(|&j| j != i && self.arrs[j].len() == n).collect());
+        let Some(pj) = pick_len(partners.len(), a[1]) else { return self.noop(cx) };
+        let j = partners[pj];
+        let mut dst = self.arrs.remove(i);
+        let j = if j > i { j - 1 } else { j };
+        let src = &self.arrs[j];
+        let pre = with_arr!(src; x, N => { let _ = N::USIZE; ids_of(x.as_slice(), 931) });
+        ledger::with(|s| s.clones.clear());
+        let r = with_arr_pair!((&mut dst, src); d, s0, N => { let _ = N::USIZE; lib(|| d.clone_from(s0)) }; _o => unreachable!());
+        let clones = ledger::with(|s| s.clones.clone());
+        let srcs: Vec<u32> = infra(|| clones.iter().map(|c| c.0).collect());
+        let news: Vec<u32> = infra(|| clones.iter().map(|c| c.1).collect());
+        cx.cov(&[OpKind::CloneFromArr as u64, n as u64, r.is_err() as u64]);
+        match r {
+            Ok(()) => {
+                if cx.checks.c08 && E::HAS_ID {
+                    let got = with_arr!(&dst; x, N => { let _ = N::USIZE; ids_of(x.as_slice(), 932) });
+                    if srcs != pre || got != news {
+                        fail("C08-clone-calls", format!("clone_from of {pre:?} cloned {srcs:?}; destination holds {got:?}, clones made {news:?}"));
+                    }
+                }
+            }
+            Err(p) => on_panic(cx, "clone_from", p),
+        }
+        self.put_arr(cx, dst);
     }
 
     // ---- functional --------------------------------------------------------
@@ -661,7 +760,10 @@ impl<E: Elem> World<E> {
     }
 
     fn op_map(&mut self, cx: &mut Cx, a: [u32; N_ARGS]) {
-        let form = a[2] % 6;
+        let form = a[2] % 7;
+        if form == 6 {
+            return self.op_bx_map_bytes(cx, a);
+        }
         if form >= 4 {
             return self.op_map_mixed(cx, a, form);
         }
